@@ -48,6 +48,7 @@ type verifCacheCall struct {
 	Val    int    `json:"val"`
 	Expire int64  `json:"expire"` // setx: nanoseconds
 	Fail   bool   `json:"fail"`   // take: the fetch function fails
+	Nil    bool   `json:"nil"`    // set/setx/take: the value (stored / fetched) is nil
 	Draw   int64  `json:"draw"`   // the Int63 the jitter source returns during this call
 }
 
@@ -63,6 +64,7 @@ type verifCacheCase struct {
 type verifCacheObs struct {
 	Found   bool     `json:"found"`   // get/take: a value was returned
 	Val     int      `json:"val"`     // get/take: the value
+	Nil     bool     `json:"nil"`     // get/take: the value returned is nil
 	Err     bool     `json:"err"`     // take: error returned
 	Fetched bool     `json:"fetched"` // take: the fetch function ran
 	Jit     int64    `json:"jit"`     // the jittered duration AroundDuration yields for this call's draw
@@ -188,6 +190,12 @@ func verifCache(raw json.RawMessage) any {
 		sort.Strings(out)
 		return out
 	}
+	value := func(call verifCacheCall) any {
+		if call.Nil {
+			return nil
+		}
+		return call.Val
+	}
 	asInt := func(v any) int {
 		i, _ := v.(int)
 		return i
@@ -203,14 +211,14 @@ func verifCache(raw json.RawMessage) any {
 		switch call.Op {
 		case "set":
 			o.Jit = int64(probe.AroundDuration(time.Duration(c.Expire)))
-			gd.run("Set blocked", func() { cache.Set(call.Key, call.Val) })
+			gd.run("Set blocked", func() { cache.Set(call.Key, value(call)) })
 		case "setx":
 			o.Jit = int64(probe.AroundDuration(time.Duration(call.Expire)))
-			gd.run("SetWithExpire blocked", func() { cache.SetWithExpire(call.Key, call.Val, time.Duration(call.Expire)) })
+			gd.run("SetWithExpire blocked", func() { cache.SetWithExpire(call.Key, value(call), time.Duration(call.Expire)) })
 		case "get":
 			gd.run("Get blocked", func() {
 				v, ok := cache.Get(call.Key)
-				o.Found, o.Val = ok, asInt(v)
+				o.Found, o.Val, o.Nil = ok, asInt(v), ok && v == nil
 			})
 		case "del":
 			gd.run("Del blocked", func() { cache.Del(call.Key) })
@@ -222,10 +230,10 @@ func verifCache(raw json.RawMessage) any {
 					if call.Fail {
 						return nil, errors.New("fetch failed")
 					}
-					return call.Val, nil
+					return value(call), nil
 				})
 				o.Err = err != nil
-				o.Found, o.Val = err == nil, asInt(v)
+				o.Found, o.Val, o.Nil = err == nil, asInt(v), err == nil && v == nil
 			})
 		case "fill", "churn":
 			o.Jit = int64(probe.AroundDuration(time.Duration(c.Expire)))
